@@ -132,8 +132,13 @@ Lemma lex_S f c r : lex (S f) false (c :: r) =
   else None.
 Proof. reflexivity. Qed.
 
-Lemma one_space f t R : one_ (S f) t (32%N :: R) = match lex f false R with Some l => Some (t :: l) | None => None end.
-Proof. reflexivity. Qed.
+Definition wsc (c : N) : Prop := c = 32%N \/ c = 9%N \/ c = 10%N \/ c = 13%N.
+Lemma ws_cases c : is_xml_ws c = true -> wsc c.
+Proof. unfold is_xml_ws, wsc. lia. Qed.
+Ltac ws4 H := destruct H as [->|[->|[->| ->]]].
+
+Lemma lex_skip f c R : wsc c -> lex (S f) false (c :: R) = lex f false R.
+Proof. intros H. ws4 H; reflexivity. Qed.
 
 Lemma digit_tests c : is_digit c = true ->
   is_xml_ws c = false /\ N.eqb c 40 = false /\ N.eqb c 41 = false /\ N.eqb c 91 = false /\ N.eqb c 93 = false /\
@@ -147,37 +152,44 @@ Ltac rw_tests H :=
          | ?a /\ ?b => let H1 := fresh in destruct H as [H1 H]; rewrite ?H1
          end; rewrite ?H.
 
-Lemma lex_name f n R : name_okb n = true ->
-  lex (S (S f)) false (n ++ 32%N :: R) = match lex f false R with Some l => Some (TName n :: l) | None => None end.
+Lemma ws_not_name c : wsc c -> name_char false c = false.
+Proof. intros H. ws4 H; reflexivity. Qed.
+Lemma ws_not_digit c : wsc c -> is_digit c = false.
+Proof. intros H. ws4 H; reflexivity. Qed.
+
+(** each token followed by a white-space character: the token is read and lexing continues at that character *)
+Lemma lex_name f n c R : name_okb n = true -> wsc c ->
+  lex (S f) false (n ++ c :: R) = one_ f (TName n) (c :: R).
 Proof.
-  destruct n as [|c r]; [discriminate|]. simpl name_okb. intros H. apply andb_prop in H. destruct H as [Hc Hr].
-  cbn [app]. rewrite lex_S. cbv zeta. pose proof (name_start_tests c Hc) as T. rw_tests T. cbn [orb]. rewrite Hc.
-  change (c :: r ++ 32%N :: R) with ((c :: r) ++ 32%N :: R).
-  rewrite span_app; [apply one_space|simpl; now rewrite (name_start_char c Hc), Hr|reflexivity].
+  destruct n as [|a r]; [discriminate|]. simpl name_okb. intros H Hc. apply andb_prop in H. destruct H as [Ha Hr].
+  cbn [app]. rewrite lex_S. cbv zeta. pose proof (name_start_tests a Ha) as T. rw_tests T. cbn [orb]. rewrite Ha.
+  change (a :: r ++ c :: R) with ((a :: r) ++ c :: R).
+  rewrite span_app; [reflexivity|simpl; now rewrite (name_start_char a Ha), Hr|now apply ws_not_name].
 Qed.
 
-Lemma lex_number f s R : number_okb s = true ->
-  lex (S (S f)) false (s ++ 32%N :: R) = match lex f false R with Some l => Some (TNumber s :: l) | None => None end.
+Lemma lex_number f s c R : number_okb s = true -> wsc c ->
+  lex (S f) false (s ++ c :: R) = one_ f (TNumber s) (c :: R).
 Proof.
   unfold number_okb. pose proof (span_spec is_digit s) as Hs. destruct (span is_digit s) as [ds rest].
-  destruct Hs as (-> & Hds & Hrest). intros H.
+  destruct Hs as (-> & Hds & Hrest). intros H Hc. pose proof (ws_not_digit c Hc) as Hcd.
+  assert (Hc46 : N.eqb c 46 = false) by (ws4 Hc; reflexivity).
   destruct ds as [|d ds].
-  - (* .ddd *) destruct rest as [|c fs]; [discriminate|]. apply andb_prop in H. destruct H as [Hc Hfs].
-    apply N.eqb_eq in Hc. subst c. destruct fs as [|d fs]; [discriminate|]. simpl digits_okb in Hfs.
+  - (* .ddd *) destruct rest as [|x fs]; [discriminate|]. apply andb_prop in H. destruct H as [Hx Hfs].
+    apply N.eqb_eq in Hx. subst x. destruct fs as [|d fs]; [discriminate|]. simpl digits_okb in Hfs.
     cbn [app]. rewrite lex_S. cbv zeta. cbn [is_xml_ws N.eqb Pos.eqb orb is_digit N.leb N.compare Pos.compare Pos.compare_cont andb].
     pose proof Hfs as Hd. simpl in Hd. apply andb_prop in Hd. destruct Hd as [Hd _]. rewrite Hd.
-    change (d :: fs ++ 32%N :: R) with ((d :: fs) ++ 32%N :: R). rewrite span_app; [apply one_space|exact Hfs|reflexivity].
+    change (d :: fs ++ c :: R) with ((d :: fs) ++ c :: R). rewrite span_app; [reflexivity|exact Hfs|exact Hcd].
   - simpl in Hds. apply andb_prop in Hds. destruct Hds as [Hd Hds].
     cbn [app]. rewrite lex_S. cbv zeta. pose proof (digit_tests d Hd) as T. rw_tests T. cbn [orb]. rewrite Hd.
-    destruct rest as [|c fs].
-    + (* ddd *) rewrite app_nil_r. change (d :: ds ++ 32%N :: R) with ((d :: ds) ++ 32%N :: R).
-      rewrite span_app; [apply one_space|simpl; now rewrite Hd, Hds|reflexivity].
-    + (* ddd. / ddd.ddd *) apply andb_prop in H. destruct H as [Hc Hfs]. apply N.eqb_eq in Hc. subst c.
+    destruct rest as [|x fs].
+    + (* ddd *) rewrite app_nil_r. change (d :: ds ++ c :: R) with ((d :: ds) ++ c :: R).
+      rewrite span_app; [|simpl; now rewrite Hd, Hds|exact Hcd]. now rewrite Hc46.
+    + (* ddd. / ddd.ddd *) apply andb_prop in H. destruct H as [Hx Hfs]. apply N.eqb_eq in Hx. subst x.
       rewrite <- app_assoc. cbn [app].
-      change (d :: ds ++ 46%N :: fs ++ 32%N :: R) with ((d :: ds) ++ 46%N :: fs ++ 32%N :: R).
+      change (d :: ds ++ 46%N :: fs ++ c :: R) with ((d :: ds) ++ 46%N :: fs ++ c :: R).
       rewrite span_app; [|simpl; now rewrite Hd, Hds|reflexivity]. cbn [N.eqb Pos.eqb].
-      rewrite span_app; [|exact Hfs|reflexivity].
-      destruct fs; apply one_space.
+      rewrite span_app; [|exact Hfs|exact Hcd].
+      destruct fs; reflexivity.
 Qed.
 
 Lemma quote_for_absent s : literal_okb s = true -> existsb (N.eqb (quote_for s)) s = false.
@@ -187,13 +199,12 @@ Proof.
   - exact E34.
 Qed.
 
-Lemma lex_literal f s R : literal_okb s = true ->
-  lex (S (S f)) false ((quote_for s :: s ++ [quote_for s]) ++ 32%N :: R)
-  = match lex f false R with Some l => Some (TLiteral s :: l) | None => None end.
+Lemma lex_literal f s c R : literal_okb s = true ->
+  lex (S f) false ((quote_for s :: s ++ [quote_for s]) ++ c :: R) = one_ f (TLiteral s) (c :: R).
 Proof.
   intros H. pose proof (quote_for_absent s H) as Hq. cbn [app]. rewrite <- app_assoc. cbn [app].
   rewrite lex_S. cbv zeta. unfold quote_for in *. destruct (existsb (N.eqb 34) s);
-    cbn [is_xml_ws N.eqb Pos.eqb orb]; rewrite until_quote_app by exact Hq; apply one_space.
+    cbn [is_xml_ws N.eqb Pos.eqb orb]; rewrite until_quote_app by exact Hq; reflexivity.
 Qed.
 
 Lemma name_okb_split n : name_okb n = true -> exists c r, n = c :: r /\ name_start false c = true /\ forallb (name_char false) (c :: r) = true.
@@ -202,40 +213,87 @@ Proof.
   exists c, r. repeat split; [exact Hc|]. now rewrite (name_start_char c Hc), Hr.
 Qed.
 
-Lemma lex_var f q R : tok_okb (TVar q) = true ->
-  lex (S (S f)) false ((36%N :: qname_str q) ++ 32%N :: R)
-  = match lex f false R with Some l => Some (TVar q :: l) | None => None end.
+Lemma lex_var f q c R : tok_okb (TVar q) = true -> wsc c ->
+  lex (S f) false ((36%N :: qname_str q) ++ c :: R) = one_ f (TVar q) (c :: R).
 Proof.
-  destruct q as [[p|] n]; simpl tok_okb; intros H.
+  intros H Hc. pose proof (ws_not_name c Hc) as Hcn. assert (Hc58 : N.eqb c 58 = false) by (ws4 Hc; reflexivity).
+  destruct q as [[p|] n]; simpl tok_okb in H.
   - apply andb_prop in H. destruct H as [Hp Hn].
-    destruct (name_okb_split p Hp) as (c & r & -> & Hc & Hall). destruct (name_okb_split n Hn) as (c' & r' & -> & Hc' & Hall').
+    destruct (name_okb_split p Hp) as (a & r & -> & Ha & Hall). destruct (name_okb_split n Hn) as (a' & r' & -> & Ha' & Hall').
     cbn [qname_str app]. rewrite lex_S. cbv zeta. cbn [is_xml_ws N.eqb Pos.eqb orb is_digit N.leb N.compare Pos.compare Pos.compare_cont andb].
-    rewrite Hc. rewrite <- app_assoc. cbn [app].
-    change (c :: r ++ 58%N :: c' :: r' ++ 32%N :: R) with ((c :: r) ++ 58%N :: c' :: r' ++ 32%N :: R).
-    rewrite span_app; [|exact Hall|reflexivity]. cbn [N.eqb Pos.eqb andb]. rewrite Hc'. cbn [tl].
-    change (c' :: r' ++ 32%N :: R) with ((c' :: r') ++ 32%N :: R). rewrite span_app; [apply one_space|exact Hall'|reflexivity].
-  - destruct (name_okb_split n H) as (c & r & -> & Hc & Hall).
+    rewrite Ha. rewrite <- app_assoc. cbn [app].
+    change (a :: r ++ 58%N :: a' :: r' ++ c :: R) with ((a :: r) ++ 58%N :: a' :: r' ++ c :: R).
+    rewrite span_app; [|exact Hall|reflexivity]. cbn [N.eqb Pos.eqb andb]. rewrite Ha'. cbn [tl].
+    change (a' :: r' ++ c :: R) with ((a' :: r') ++ c :: R). rewrite span_app; [reflexivity|exact Hall'|exact Hcn].
+  - destruct (name_okb_split n H) as (a & r & -> & Ha & Hall).
     cbn [qname_str app]. rewrite lex_S. cbv zeta. cbn [is_xml_ws N.eqb Pos.eqb orb is_digit N.leb N.compare Pos.compare Pos.compare_cont andb].
-    rewrite Hc. change (c :: r ++ 32%N :: R) with ((c :: r) ++ 32%N :: R).
-    rewrite span_app; [|exact Hall|reflexivity].
-    destruct R as [|c4 R]; [apply one_space|]. cbn [N.eqb Pos.eqb andb]. apply one_space.
+    rewrite Ha. change (a :: r ++ c :: R) with ((a :: r) ++ c :: R).
+    rewrite span_app; [|exact Hall|exact Hcn].
+    destruct R as [|c4 R]; [reflexivity|]. rewrite Hc58. reflexivity.
 Qed.
 
-Lemma lex_one t f R : tok_okb t = true ->
-  lex (S (S f)) false (tok_str t ++ 32%N :: R) = match lex f false R with Some l => Some (t :: l) | None => None end.
+Lemma lex_one t f c R : tok_okb t = true -> wsc c ->
+  lex (S f) false (tok_str t ++ c :: R) = one_ f t (c :: R).
 Proof.
-  intros H. destruct t; try reflexivity; try discriminate H.
-  - now apply lex_name. - now apply lex_number. - now apply lex_literal. - now apply lex_var.
+  intros H Hc. destruct t; try discriminate H;
+    [now apply lex_name|now apply lex_number|now apply lex_literal|now apply lex_var|..];
+    ws4 Hc; reflexivity.
 Qed.
+
+(** white space between tokens: any non-empty run of XML white-space characters *)
+Definition ws_okb (w : str) : bool := match w with [] => false | _ => forallb is_xml_ws w end.
+
+Lemma lex_ws w f R : forallb is_xml_ws w = true -> lex (length w + f) false (w ++ R) = lex f false R.
+Proof.
+  induction w as [|c w IH]; cbn [length app Nat.add forallb]; intros H; [reflexivity|]. apply andb_prop in H. destruct H as [Hc Hw].
+  rewrite lex_skip by (now apply ws_cases). now apply IH.
+Qed.
+
+Definition unlex_seps (l : list (tok * str)) : str := flat_map (fun tw => tok_str (fst tw) ++ snd tw) l.
+Definition seps_okb (l : list (tok * str)) : bool := forallb (fun tw => tok_okb (fst tw) && ws_okb (snd tw)) l.
+Definition fuel_of (l : list (tok * str)) : nat := fold_right (fun tw n => S (length (snd tw) + n)) 1 l.
+
+Theorem lex_unlex_seps l : seps_okb l = true -> forall f, fuel_of l <= f -> lex f false (unlex_seps l) = Some (map fst l).
+Proof.
+  induction l as [|[t w] l IH]; intros H f Hf.
+  - destruct f; [simpl in Hf; lia|reflexivity].
+  - simpl in H. apply andb_prop in H. destruct H as [H Hl]. apply andb_prop in H. destruct H as [Ht Hw].
+    destruct w as [|c w]; [discriminate|]. simpl in Hw. pose proof Hw as Hw'. apply andb_prop in Hw'. destruct Hw' as [Hc Hw'].
+    cbn [fuel_of fold_right snd length] in Hf. fold (fuel_of l) in Hf.
+    destruct f as [|g]; [lia|].
+    cbn [unlex_seps flat_map fst snd]. fold (unlex_seps l). rewrite <- app_assoc. cbn [app].
+    rewrite lex_one; [|exact Ht|now apply ws_cases]. unfold one_.
+    replace g with (length (c :: w) + (g - length (c :: w))) by (cbn [length] in *; lia).
+    change (c :: w ++ unlex_seps l) with ((c :: w) ++ unlex_seps l).
+    rewrite lex_ws by exact Hw. rewrite IH; [reflexivity|exact Hl|cbn [length] in *; lia].
+Qed.
+
+Lemma fuel_of_le l : seps_okb l = true -> fuel_of l <= length (unlex_seps l) + 1.
+Proof.
+  induction l as [|[t w] l IH]; intros H; [simpl; lia|].
+  simpl in H. apply andb_prop in H. destruct H as [H Hl]. apply andb_prop in H. destruct H as [Ht Hw].
+  cbn [fuel_of fold_right unlex_seps flat_map fst snd]. fold (fuel_of l). fold (unlex_seps l).
+  rewrite !app_length. specialize (IH Hl).
+  assert (1 <= length (tok_str t)).
+  { destruct t; try (simpl; lia); simpl tok_okb in Ht; simpl tok_str.
+    - destruct s; [discriminate|simpl; lia].
+    - unfold number_okb in Ht. destruct s; [simpl in Ht; discriminate|simpl; lia]. }
+  lia.
+Qed.
+
+(** the one-space text of Syn/Render.v is the instance with every separator a single space *)
+Lemma unlex_is_seps ts : unlex ts = unlex_seps (map (fun t => (t, [32%N])) ts).
+Proof. induction ts as [|t ts IH]; [reflexivity|]. unfold unlex, unlex_seps in *. cbn [flat_map map fst snd]. now rewrite IH. Qed.
 
 Theorem lex_unlex ts : forallb tok_okb ts = true -> forall f, 2 * length ts + 1 <= f -> lex f false (unlex ts) = Some ts.
 Proof.
-  induction ts as [|t ts IH]; intros H f Hf.
-  - destruct f; [lia|reflexivity].
-  - simpl in H. apply andb_prop in H. destruct H as [Ht Hts].
-    destruct f as [|[|f]]; [simpl in Hf; lia|simpl in Hf; lia|].
-    unfold unlex. cbn [flat_map]. fold (unlex ts). rewrite <- app_assoc. cbn [app].
-    rewrite lex_one by exact Ht. rewrite IH; [reflexivity|exact Hts|simpl in *; lia].
+  intros H f Hf. rewrite unlex_is_seps. rewrite lex_unlex_seps.
+  - rewrite map_map. cbn [fst]. now rewrite map_id.
+  - unfold seps_okb. rewrite forallb_forall in *. intros [t w] Hin. apply in_map_iff in Hin. destruct Hin as (t0 & [= <- <-] & Hin).
+    cbn [fst snd]. rewrite (H t0 Hin). reflexivity.
+  - clear H. revert f Hf. induction ts as [|t ts IH]; intros f Hf; [simpl in *; lia|].
+    cbn [map fuel_of fold_right snd length] in *. fold (fuel_of (map (fun t => (t, [32%N])) ts)).
+    specialize (IH (f - 2)). lia.
 Qed.
 
 Lemma tok_str_nonempty t : tok_okb t = true -> 1 <= length (tok_str t).
@@ -252,20 +310,41 @@ Proof.
   pose proof (tok_str_nonempty t Ht). specialize (IH Hts). lia.
 Qed.
 
-(** ** C08: the model parser inverts the canonical rendering, abbreviated or not *)
-Theorem parse_string_render : forall ab e, wf e = true -> forallb tok_okb (rend ab 0 e) = true ->
-  parse_string false (render ab e) = Some e.
+(** ** C08: the model parser inverts every canonical rendering: steps in full or abbreviated,
+    any number of redundant parentheses around any sub-expressions, any white space *)
+Theorem parse_string_render : forall xp ab e, wf e = true -> forallb tok_okb (rend xp ab 0 e) = true ->
+  parse_string false (render xp ab e) = Some e.
 Proof.
-  intros ab e Hw Hl. unfold parse_string, render.
+  intros xp ab e Hw Hl. unfold parse_string, render.
   rewrite lex_unlex; [|exact Hl|pose proof (unlex_length _ Hl); lia].
   now rewrite parse_rend.
 Qed.
 
-(** abbreviated forms equal their expansions, as strings *)
-Corollary abbreviated_text_is_expansion e : wf e = true ->
-  forallb tok_okb (rend true 0 e) = true -> forallb tok_okb (rend false 0 e) = true ->
-  parse_string false (render true e) = parse_string false (render false e).
+(** ... with ANY non-empty run of white-space characters (space, tab, CR, LF) after each token *)
+Lemma map_fst_combine {A B} (l : list A) (m : list B) : length m = length l -> map fst (combine l m) = l.
+Proof.
+  revert m. induction l as [|a l IH]; intros [|b m] H; try reflexivity; try discriminate.
+  simpl. f_equal. apply IH. now injection H.
+Qed.
+
+Theorem parse_string_any_whitespace : forall xp ab e seps, wf e = true ->
+  length seps = length (rend xp ab 0 e) -> seps_okb (combine (rend xp ab 0 e) seps) = true ->
+  parse_string false (unlex_seps (combine (rend xp ab 0 e) seps)) = Some e.
+Proof.
+  intros xp ab e seps Hw Hlen Hok. unfold parse_string.
+  rewrite lex_unlex_seps; [|exact Hok|apply fuel_of_le; exact Hok].
+  rewrite map_fst_combine by exact Hlen. now rewrite parse_rend.
+Qed.
+
+(** abbreviated forms equal their expansions and redundant parentheses change nothing, as strings *)
+Corollary renderings_agree_as_text xp xp' ab ab' e : wf e = true ->
+  forallb tok_okb (rend xp ab 0 e) = true -> forallb tok_okb (rend xp' ab' 0 e) = true ->
+  parse_string false (render xp ab e) = parse_string false (render xp' ab' e).
 Proof. intros. now rewrite !parse_string_render. Qed.
+
+(** two redundant pairs around every operator node, one around everything else *)
+Definition heavy (e : expr) : nat :=
+  match e with EOr _ _ | EAnd _ _ | ECmp _ _ _ | EArith _ _ _ => 2 | _ => 1 end.
 
 Example parse_string_render_instance :
   let n1 := ENum (lit "1.5") in
@@ -274,17 +353,28 @@ Example parse_string_render_instance :
   let e := EOr (EAnd (ECmp CLt (EArith ASub (EArith AMul (ENeg a) n1) (ELit (lit "it's"))) n1)
                      (EUnion a (EFilter (EVar (Some (lit "q"), lit "v")) [n1] [SAxis Parent NTNode []])))
                (EPath true []) in
-  wf e = true /\ forallb tok_okb (rend true 0 e) = true /\ forallb tok_okb (rend false 0 e) = true /\
-  parse_string false (render true e) = Some e /\ parse_string false (render false e) = Some e /\
-  render true e <> render false e.
-Proof. repeat split; try reflexivity. vm_compute. discriminate. Qed.
+  wf e = true /\ forallb tok_okb (rend minimal true 0 e) = true /\ forallb tok_okb (rend minimal false 0 e) = true /\
+  parse_string false (render minimal true e) = Some e /\ parse_string false (render minimal false e) = Some e /\
+  parse_string false (render heavy true e) = Some e /\
+  render minimal true e <> render minimal false e /\ render heavy true e <> render minimal true e.
+Proof. repeat split; try reflexivity; vm_compute; discriminate. Qed.
 
-(** what the correspondence check asks for: the canonical text of an AST, when it has one *)
-Definition canonical_text (ab : bool) (e : expr) : option str :=
-  if wf e && forallb tok_okb (rend ab 0 e) then Some (render ab e) else None.
+Example any_whitespace_instance :
+  let e := EArith AMul (EPath false [SAxis Child (NTName (lit "a")) [ENum (lit "1")]]) (EVar (None, lit "n")) in
+  let seps := [[9%N]; [32%N; 32%N]; [10%N]; [13%N; 10%N]; [32%N]; [9%N; 9%N]] in
+  wf e = true /\ length seps = length (rend minimal true 0 e) /\ seps_okb (combine (rend minimal true 0 e) seps) = true /\
+  parse_string false (unlex_seps (combine (rend minimal true 0 e) seps)) = Some e.
+Proof. repeat split; reflexivity. Qed.
 
-Theorem canonical_text_parses ab e s : canonical_text ab e = Some s -> parse_string false s = Some e.
+(** what the correspondence check asks for: a canonical text of an AST, when it has one;
+    mode 0: steps in full; 1: abbreviated; 2: abbreviated with redundant parentheses everywhere *)
+Definition canonical_text (mode : nat) (e : expr) : option str :=
+  let xp := match mode with 2 => heavy | _ => minimal end in
+  let ab := match mode with 0 => false | _ => true end in
+  if wf e && forallb tok_okb (rend xp ab 0 e) then Some (render xp ab e) else None.
+
+Theorem canonical_text_parses mode e s : canonical_text mode e = Some s -> parse_string false s = Some e.
 Proof.
-  unfold canonical_text. destruct (wf e && forallb tok_okb (rend ab 0 e)) eqn:H; [|discriminate].
+  unfold canonical_text. cbv zeta. destruct (wf e && forallb tok_okb (rend _ _ 0 e)) eqn:H; [|discriminate].
   intros [= <-]. apply andb_prop in H. destruct H. now apply parse_string_render.
 Qed.
